@@ -135,15 +135,23 @@ class C10(Prop):
     thorough_n = 6000
     search_n = 1500
     design_ref = "5/C10"
-    technique = "Lean 4 proof (wheel invariant, induction over histories) + translator-generated constants + model/implementation correspondence"
+    technique = ("Lean 4 proof (wheel invariant, simulation relation with the oracle, bookkeeping invariant; induction over "
+                 "histories) + expressions regenerated from the clang AST with bridging lemmas + model/implementation correspondence")
     level_text = ("Lean 4 theorems about an executable model of lib/efuns/call_out.c (wheel arithmetic, delta-encoded "
                   "ordered insert, sweep, remove/find/time_left) for all delays, tick spacings and callback scripts; the "
-                  "model is tied to the source by the regenerated wheel size and by running the real call_out code and the "
-                  "model on the same generated histories; the Lean specification oracle judges every implementation trace")
-    level_note = ("trusted: Lean kernel; extract.py; the correspondence harness (differential, only the generated histories); "
-                  "callbacks are oracle scripts; command_giver handling, function-pointer call_outs and handle overflow after "
-                  "2^26 call_outs are not modelled (side condition of NV.C10.handles_fit_int); top theorem "
-                  "NV.C10.model_satisfies_spec: the oracle accepts every history of the model, for all scripts and commands")
+                  "model is tied to the source by ~30 expressions regenerated from the clang AST on every run (slot, rotation, "
+                  "handle, time_left, sweep order, insert comparison and delta updates, unlink update, head decrement, (int) "
+                  "casts, CHUNK_SIZE) each with a bridging lemma, and by running the real call_out code and the model on the "
+                  "same generated histories; the Lean specification oracle (firing, answers, call_out_info, this_player, "
+                  "print_call_out_usage bookkeeping) judges every implementation trace")
+    level_note = ("trusted: Lean kernel; extract.py / props/c10_extract.py (clang AST -> NV/Gen/C10.lean); the correspondence "
+                  "harness (differential, only the generated histories); callbacks are oracle scripts.  Top theorem "
+                  "NV.C10.model_satisfies_spec, no hypotheses: the oracle (all clauses, incl. the print_call_out_usage / "
+                  "num_call / free-list clause) accepts every history of the model, for all scripts and commands.  C int width: "
+                  "time left modelled ((int) cast regenerated), handles proved exact below 2^31/N call_outs "
+                  "(NV.C10.handleC_exact) with a Lean-checked witness above (NV.C10.C10_handles_Full_false, not replayed on the "
+                  "driver).  Observed only (checked by the LPC callback, no model): call_outs with 4 arguments incl. an object "
+                  "that is destructed meanwhile; f_call_out refusing a destructed current_object")
     rule = ("cases = corpus + known-finding inputs + boundary list + seeded random histories of "
             "call_out (string and function pointer, with and without this_player)/remove/find (by name and handle)/"
             "remove-all/reload_object/call_out_info/mud_status usage/destruct/error at top level and inside call_out "
@@ -151,10 +159,16 @@ class C10(Prop):
             "0..200 incl. backlog; the branch histogram of the run is in coverage.histogram; a case is "
             "non-trivial when its trace has >= 2 lines; distinct = distinct canonical implementation trace")
     not_covered = ["the O_LISTENER branch of call_out() (the flag is never set in this driver: dead code)",
-                   "reload_object (= remove_all_call_out + variable reset) is exercised only through remove_call_out()",
-                   "int overflow of the handle after 2^26 call_outs (undefined behaviour; bound in handles_fit_int)",
-                   "print_call_out_usage / num_call and the free list: compared with the model, no oracle clause",
-                   "f_call_out by a destructed current_object (modelled, never reached by the harness objects)",
+                   "int overflow of the handle after 2^26 call_outs (undefined behaviour): bound + Lean witness only, no replay "
+                   "on the driver (would need a hook that sets `unique`)",
+                   "argument vectors: one string argument in the model; 4-argument call_outs (string, object, number) are "
+                   "checked by the LPC callback only (observed, no theorem); refcounts of arguments are not observable",
+                   "f_call_out by a destructed current_object: probed by the harness (destco), the model has the branch but the "
+                   "probe is outside the model",
+                   "the static `cop` cleanup at the entry of call_out() (unreachable: every error is caught inside the loop), "
+                   "current_interactive = 0, eval_cost across the callbacks of one sweep, shutdown's remove_all_call_out",
+                   "hand-copied predicates: byName, remove_all_call_out's owner test, get_all_call_outs' skip test, the "
+                   "destructed-owner test of call_out() (correspondence only)",
                    "see notes/C10-coverage.md for the full map"]
 
     def gen_extra(self, ctx, bdir):
